@@ -12,7 +12,10 @@ import (
 	"fmt"
 	"math"
 	"os"
+	"reflect"
+	"sort"
 	"strconv"
+	"strings"
 )
 
 // Spec bounds a lazily-shaped JSON value.
@@ -300,12 +303,132 @@ func SameObject(a, b any) bool {
 }
 
 // Freeze marks everything reachable from roots (and all package-level
-// state) read-only until Thaw; natively it is a no-op.
-func Freeze(roots ...any) {}
+// state) read-only until Thaw. Under the engine every store into that memory
+// is detected; natively a deep dump of the roots (unexported fields included)
+// is taken and compared at Thaw, which confirms value-changing writes.
+func Freeze(roots ...any) {
+	frozenRoots = roots
+	frozenDump = dumpAll(roots)
+}
 
 // Thaw ends the frozen region and returns a description of the first write
 // into frozen memory ("" if none).
-func Thaw() string { return "" }
+func Thaw() string {
+	if dumpAll(frozenRoots) != frozenDump {
+		return "frozen object changed"
+	}
+	return ""
+}
+
+var (
+	frozenRoots []any
+	frozenDump  string
+)
+
+func dumpAll(roots []any) string {
+	var sb strings.Builder
+	seen := map[uintptr]bool{}
+	for _, r := range roots {
+		dump(&sb, reflect.ValueOf(r), seen, 0)
+		sb.WriteByte(';')
+	}
+	return sb.String()
+}
+
+func dump(sb *strings.Builder, v reflect.Value, seen map[uintptr]bool, depth int) {
+	if !v.IsValid() {
+		sb.WriteString("nil")
+		return
+	}
+	if depth > 40 {
+		sb.WriteString("…")
+		return
+	}
+	switch v.Kind() {
+	case reflect.Ptr:
+		if v.IsNil() {
+			sb.WriteString("nil")
+			return
+		}
+		p := v.Pointer()
+		if seen[p] {
+			sb.WriteString("^")
+			return
+		}
+		seen[p] = true
+		// follow pointers into the code under test only; foreign objects
+		// (compiled regexps, locations) are identified by presence
+		if pk := v.Type().Elem().PkgPath(); pk != "" && !strings.HasPrefix(pk, "github.com/theory/sqljson") {
+			sb.WriteString("&" + v.Type().Elem().String())
+			return
+		}
+		sb.WriteString("&")
+		dump(sb, v.Elem(), seen, depth+1)
+	case reflect.Interface:
+		if v.IsNil() {
+			sb.WriteString("nil")
+			return
+		}
+		sb.WriteString(v.Elem().Type().String() + ":")
+		dump(sb, v.Elem(), seen, depth+1)
+	case reflect.Struct:
+		sb.WriteString("{")
+		for i := 0; i < v.NumField(); i++ {
+			dump(sb, v.Field(i), seen, depth+1)
+			sb.WriteByte(',')
+		}
+		sb.WriteString("}")
+	case reflect.Slice, reflect.Array:
+		if v.Kind() == reflect.Slice && v.IsNil() {
+			sb.WriteString("nil[]")
+			return
+		}
+		sb.WriteString("[")
+		for i := 0; i < v.Len(); i++ {
+			dump(sb, v.Index(i), seen, depth+1)
+			sb.WriteByte(',')
+		}
+		sb.WriteString("]")
+	case reflect.Map:
+		if v.IsNil() {
+			sb.WriteString("nilmap")
+			return
+		}
+		keys := v.MapKeys()
+		ks := make([]string, len(keys))
+		byKey := map[string]reflect.Value{}
+		for i, k := range keys {
+			ks[i] = fmt.Sprint(k)
+			byKey[ks[i]] = v.MapIndex(k)
+		}
+		sort.Strings(ks)
+		sb.WriteString("map[")
+		for _, k := range ks {
+			sb.WriteString(k + ":")
+			dump(sb, byKey[k], seen, depth+1)
+			sb.WriteByte(',')
+		}
+		sb.WriteString("]")
+	case reflect.String:
+		sb.WriteString(strconv.Quote(v.String()))
+	case reflect.Bool:
+		sb.WriteString(strconv.FormatBool(v.Bool()))
+	case reflect.Int, reflect.Int8, reflect.Int16, reflect.Int32, reflect.Int64:
+		sb.WriteString(strconv.FormatInt(v.Int(), 10))
+	case reflect.Uint, reflect.Uint8, reflect.Uint16, reflect.Uint32, reflect.Uint64, reflect.Uintptr:
+		sb.WriteString(strconv.FormatUint(v.Uint(), 10))
+	case reflect.Float32, reflect.Float64:
+		sb.WriteString(strconv.FormatUint(math.Float64bits(v.Float()), 16))
+	case reflect.Func, reflect.Chan, reflect.UnsafePointer:
+		if v.IsNil() {
+			sb.WriteString("nil")
+		} else {
+			sb.WriteString("fn")
+		}
+	default:
+		sb.WriteString("?")
+	}
+}
 
 func AddOverflows(a, b int64) bool {
 	c := a + b
